@@ -29,7 +29,7 @@ theorem fragment_unfragmented (v : Version) (its itr : Nat) (data : Bytes) (size
 theorem c14_bounded (v : Version) (its itr : Nat) (data : Bytes) (size : Nat)
     (h1 : its < 4294967296) (h2 : itr < 4294967296)
     (hs : hdrLen v + 1 < size)
-    (hn : data.length / (size - hdrLen v - 1) + 1 ≤ 65535) :
+    (hn : numFrags data.length (size - hdrLen v - 1) ≤ 65535) :
     ∀ p ∈ fragment v its itr data size, p.length ≤ size := by
   exact Otr.c14_bounded v its itr data size h1 h2 hs hn
 
@@ -42,7 +42,7 @@ theorem fmt05d_no_comma (k : Nat) (h : k < 100000) : (44 : UInt8) ∉ fmt05d k :
 theorem c14_lossless (v : Version) (its itr : Nat) (data : Bytes) (size : Nat)
     (h1 : its < 4294967296) (h2 : itr < 4294967296)
     (hs : hdrLen v + 1 < size) (hl : size < data.length)
-    (hn : data.length / (size - hdrLen v - 1) + 1 ≤ 65535)
+    (hn : numFrags data.length (size - hdrLen v - 1) ≤ 65535)
     (hd : (44 : UInt8) ∉ data) :
     ((fragment v its itr data size).foldl (reassembleStep v) FragCtx.empty).finished = true ∧
     ((fragment v its itr data size).foldl (reassembleStep v) FragCtx.empty).frag = data ∧
